@@ -51,6 +51,11 @@ def tree_spec(big=0):
         "d/a.txt": ("file", b"aaa\n", None),
         "d/b.txt": ("file", b"bbb\n", None),
         "d/sub/c.txt": ("file", b"ccc\n", None),
+        # boundary-valued content inside a directory whose listing gets cached: a 0-byte file (size 0), an empty
+        # abstract, a link-file entry with port 0 (falsy values that must survive the cache round trip)
+        "d/empty.txt": ("file", b"", None),
+        "d/a.txt.abstract": ("file", b"", None),
+        "d/.Links": ("file", b"Name=Zero port\nType=1\nPath=/zero\nHost=example.org\nPort=0\n\n", None),
         "gm/gophermap": ("file", b"Welcome to the map\n0About\t/about.txt\n1Dir\t/d\n", None),
         "gm/x.txt": ("file", b"x\n", None),
         "umn/.Links": ("file", b"Name=Link to about\nType=0\nPath=/about.txt\n\n", None),
